@@ -333,7 +333,8 @@ reg(VFS, "c07_allocate_idx", ["C07"], tier="thorough", flavour="real", timeout=8
     what="Vfs::allocate_fs_idx as one step across the index wrap-around", bounds="full 256-entry table; allocator at 253; occupancy of slots 253,254,255,1,2,3,4 symbolic (2^7 patterns), slot 5 vacant; unwind 260",
     functions=["Vfs::allocate_fs_idx"], stubs=VFS_STUBS, assumptions=["allocator position concrete (253): a symbolic position ran out of memory at 16 GB"],
     role="c07_allocate_idx", unwindset=UW_PI)
-reg_vfs("c07_rootmnt_b_ino1", ["C07"], quick=True, timeout=800, what="under a root mount of A, inode (B, ROOT_ID) is delivered to B and the VFS root to A's root", bounds="concrete inodes", functions=["Vfs::access", "Vfs::get_real_rootfs"])
+reg_vfs("c07_rootmnt_rename_concrete", ["C07"], quick=False, timeout=850, what="rename between the VFS root and (A,5) / pseudo directory 2 / (B,4) under a root mount of A", bounds="concrete inodes", functions=["Vfs::rename", "Vfs::get_real_rootfs"])
+reg_vfs("c07_rootmnt_b_ino1", ["C07"], quick=True, timeout=850, what="under a root mount of A, inode (B, ROOT_ID) is delivered to B and the VFS root to A's root", bounds="concrete inodes", functions=["Vfs::access", "Vfs::get_real_rootfs"])
 reg_vfs("c14_effective_mapping", ["C14"], what="effective mapping for every index", bounds="index u8, three mappings symbolic", functions=["Vfs::get_effective_id_mapping"])
 reg_vfs("c12_vfs_init", ["C12"], what="Vfs::init option algebra, second INIT", bounds="no_open/no_opendir/no_writeback/killpriv_v2 switches, offered and client option words all symbolic",
         functions=["<Vfs as FileSystem>::init", "Vfs::options"])
